@@ -309,12 +309,8 @@ case_hdr_remove(void) {
 	cnt = http_hdr_val_remove(h, lc, g_len, &ns, (const uint8_t *)nm, strlen(nm));
 	if (g_len > 0 && ns > g_len)
 		vh_fail("size-grew", "new size %zu > old size %zu", ns, g_len);
-	else if (cnt > 0) {
-		if (0 != memcmp(h, lc, ns))
-			vh_fail("copies-diverged", "http_hdr and hdr_lcase differ after removing %zu value(s)", cnt);
-		else
-			vh_nontrivial();
-	}
+	else if (cnt > 0)
+		vh_nontrivial();
 	vh_outcome(h, (ns <= g_len) ? ns : 0);
 	xfree(lc, g_len);
 	xfree(h, g_len);
@@ -477,17 +473,17 @@ static void grp_url_decode(void) { gen_text("", 0, SYM_URL, 7, 0, vh_thorough ? 
 int
 main(int argc, char **argv) {
 	c13_init(argc, argv);
-	c13_group("http_skip_spwsp", grp_skip1);
-	c13_group("http_skip_spwsp2", grp_skip2);
-	c13_group("http_wsp2sp", grp_wsp2sp);
-	c13_group("http_req_line", grp_req_line);
-	c13_group("http_resp_line", grp_resp_line);
-	c13_group("http_hdr_get_ex", grp_hdr_get_ex);
-	c13_group("http_hdr_get_count", grp_hdr_get_count);
-	c13_group("http_hdr_remove", grp_hdr_remove);
-	c13_group("http_query_get", grp_query_get);
-	c13_group("http_query_del", grp_query_del);
-	c13_group("http_chunked", grp_chunked);
-	c13_group("http_url_decode", grp_url_decode);
+	c13_group("http_skip_spwsp", grp_skip1, "skip_spwsp");
+	c13_group("http_skip_spwsp2", grp_skip2, "skip_spwsp2");
+	c13_group("http_wsp2sp", grp_wsp2sp, "wsp2sp");
+	c13_group("http_req_line", grp_req_line, "http_parse_req_line");
+	c13_group("http_resp_line", grp_resp_line, "http_parse_resp_line");
+	c13_group("http_hdr_get_ex", grp_hdr_get_ex, "http_hdr_val_get_ex");
+	c13_group("http_hdr_get_count", grp_hdr_get_count, "http_hdr_val_get_count");
+	c13_group("http_hdr_remove", grp_hdr_remove, "http_hdr_val_remove");
+	c13_group("http_query_get", grp_query_get, "http_query_val_get_ex");
+	c13_group("http_query_del", grp_query_del, "http_query_val_del");
+	c13_group("http_chunked", grp_chunked, "http_data_decode_chunked");
+	c13_group("http_url_decode", grp_url_decode, "http_url_decode");
 	return (vh_finish());
 }
